@@ -13,7 +13,7 @@ def build(ctx):
     ctx.log("translate", out)
     if not ok:
         ctx.diag.append("translator failed: " + out[-300:])
-    C.prove(ctx, ["Props/C12.v", "Props/C12Valid.v", "Props/C12Opts.v", "Props/C12Full.v"], ["Oblig/C12Obl.v", "Oblig/ValidFlatObl.v", "Oblig/OptSitesObl.v", "Oblig/C12OptsObl.v", "Oblig/C12FullObl.v"])
+    C.prove(ctx, ["Props/C12.v", "Props/C12Valid.v", "Props/C12Opts.v", "Props/C12Full.v", "Props/C12FullIAT.v"], ["Oblig/C12Obl.v", "Oblig/ValidFlatObl.v", "Oblig/OptSitesObl.v", "Oblig/C12OptsObl.v", "Oblig/C12FullObl.v", "Oblig/C12FullIATObl.v"])
     ok, out = C.build_harness()
     ctx.log("go build", out)
     if not ok:
@@ -27,6 +27,10 @@ def build(ctx):
     ctx.log("ocaml c12full", out[-3000:])
     if not ok:
         ctx.diag.append("extracted whole-function model (FlattenFull) does not build: " + out[-600:])
+    ok, out = C.build_ocaml("c12iat")
+    ctx.log("ocaml c12iat", out[-3000:])
+    if not ok:
+        ctx.diag.append("extracted IAT validator / survivor model (FlattenFullIAT) does not build: " + out[-600:])
     return True
 
 
@@ -68,6 +72,42 @@ def corr_full(ctx):
         pass
 
 
+def corr_iat(ctx):
+    """Phase 7: IATBatch.Create WITH the validator (Model/FlattenFullIAT.v: iat_skeleton, iat_validate, create_iat_v) against
+    the real FlattenBatches / IATBatch.Create / IATBatch.Validate — skeleton and verdict of every IAT batch of the result,
+    single batches as generated and tampered — and files that mix ADV batches with others (File.Create's refusal)."""
+    import json
+    d = os.path.join(ctx.rundir, "corr-iat")
+    os.makedirs(d, exist_ok=True)
+    args = [os.path.join(C.BIN, "c12"), "corriat", "-out", d, "-n", str(ctx.scale(500, 5000)), "-nmix", str(ctx.scale(120, 1200)),
+            "-nbatch", str(ctx.scale(900, 9000)), "-corpus", CORPUS]
+    rc, out = C.sh(args, timeout=3000)
+    ctx.log("corr-iat", out[-1500:])
+    drv = os.path.join(C.BUILD, "ocaml", "c12iat", "driver")
+    if rc != 0 or not os.path.exists(drv):
+        ctx.diag.append("IAT validator correspondence could not run: " + out[-300:])
+        return
+    rc2, out2 = C.sh("%s %s > %s" % (drv, os.path.join(d, "cases.txt"), os.path.join(d, "model.txt")), timeout=3000)
+    if rc2 != 0:
+        ctx.diag.append("extracted IAT validator model crashed: " + out2[-300:])
+    ctx.compare("FlattenBatches / IATBatch.Create with the validator, ADV next to other batches (FlattenFullIAT.iat_views / create_iat_view)",
+                os.path.join(d, "model.txt"), os.path.join(d, "impl.txt"), os.path.join(d, "specs.jsonl"))
+    before = len(ctx.fails)
+    summ = ctx.read_jsonl(os.path.join(d, "iat-oracle.jsonl"))
+    for f in ctx.fails[before:]:
+        f["input"] = f.get("case")
+    ctx.add_summary(summ, "IAT validator / mixed ADV oracle")
+    try:
+        info = json.loads(out.strip().splitlines()[-1])
+        ctx.cov.setdefault("distribution", {})["IAT validator correspondence"] = info
+        dist = info.get("distribution", {})
+        if ctx.tier == "quick" and (info.get("cases", 0) < 800 or dist.get("mixed_adv_ERRFILE", 0) < 50 or dist.get("iat_batches_out", 0) < 300
+                                    or sum(v for k, v in dist.items() if k.startswith("create_fail:")) < 150):
+            ctx.diag.append("IAT validator correspondence: too few cases %s" % json.dumps(info)[:300])
+    except (ValueError, IndexError):
+        pass
+
+
 def oracle(ctx, n, sub="oracle"):
     d = os.path.join(ctx.rundir, sub)
     os.makedirs(d, exist_ok=True)
@@ -94,9 +134,9 @@ def run(ctx):
     ctx.search = search
     ctx.trusted += ["flatten-source analysis of the translator (translator/flatten.go: syntactic shapes of GetHeaderSignature, the sort.Slice comparators, canMerge, the candidate loop and Consume)",
                     "header signature and entry identity as observed by the harness (first 87 columns of the rendered header; rendered entry + addenda without trace/sequence columns, sha256-abbreviated in the interchange)",
-                    "payload observation of harness/cmd/c12/full.go (service class, ODFI, header validity, transaction code, routing number, check digit, addenda presence per entry) and the payload lookup of ocaml/c12full/driver.ml",
+                    "payload observation of harness/cmd/c12/full.go and fulliat.go (stored routing number / check digit of IAT entries; service class, ODFI, header validity, transaction code, routing number, check digit, addenda presence per entry) and the payload lookup of ocaml/c12full/driver.ml and ocaml/c12iat/driver.ml",
                     "the processing order for more than 12 batches is obtained by replaying sort.Slice on the entry counts (untrusted hint: the extracted checker flatten_hint re-validates it)"]
-    ctx.assumptions += ["whole-function theorems (Props/C12Full.v: C12_succeeds, C12_valid) are about files of standard non-ADV batches under default validation options; IAT and ADV batches are inside the executable whole-function model and its correspondence, not inside these two theorems; of Validate only what Arith models (SEC specific rules, addenda sequence numbers: oracle)",
+    ctx.assumptions += ["whole-function theorems (Props/C12Full.v, Props/C12FullIAT.v) are about files under default validation options: standard batches (C12_succeeds, C12_valid), standard + IAT batches (C12_succeeds_iat, C12_succeeds_iat_valid: every IAT batch handed to AddToFile passes the Arith part of IATBatch.Validate, the addenda sequence numbers and the addenda limits), ADV files (C12_succeeds_adv), files mixing ADV with other kinds (C12_mixed_adv_error: File.Create's error, exactly); of Validate only what Arith models plus seqs_okb / addenda_limits / isCategory (field level rules of entries and addenda records, IAT NOC rules: oracle)",
                         "inputs are files valid under default validation options (trace numbers strictly ascending inside a batch and prefixed by the header's ODFI)"]
     if not build(ctx):
         return
@@ -119,6 +159,7 @@ def run(ctx):
     else:
         ctx.diag.append("correspondence could not run: " + out[-300:])
     corr_full(ctx)
+    corr_iat(ctx)
     validout.run(ctx, "flatten")
     summ = oracle(ctx, ctx.scale(9000, 40000))
     ctx.add_summary(summ, "FlattenBatches oracle")
@@ -142,6 +183,10 @@ def replay(path):
         import json
         d = json.load(open(path))
         inp = d.get("input", d)
+        if isinstance(inp, dict) and "full" in inp:   # phase-7 recipe (harness/cmd/c12/fulliat.go)
+            rc, out = C.sh([os.path.join(C.BIN, "c12"), "replayiat", path], timeout=600)
+            print(out)
+            return 1 if rc != 0 else 0
         if isinstance(inp, dict) and "file" in inp:   # phase-6 recipe (harness/cmd/c12/full.go)
             rc, out = C.sh([os.path.join(C.BIN, "c12"), "replayfull", path], timeout=600)
             print(out)
